@@ -241,6 +241,37 @@ pub fn replay(args: &[String]) -> i32 {
             }
         }
     }
+    // ... and the bare results themselves: every comparison operator of Score<f64> and Error<f64> says
+    // what partial_cmp says (a score orders as its value, an error the other way round; NaN is not
+    // ordered against anything)
+    {
+        let vals = [f64::NAN, 0.0, -0.0, 1.5, f64::INFINITY, f64::NEG_INFINITY, f64::MIN_POSITIVE / 2.0];
+        for kind in ["score", "error"] {
+            for a in vals {
+                for b in vals {
+                    n += 1;
+                    let want = if kind == "score" { a.partial_cmp(&b) } else { b.partial_cmp(&a) };
+                    let ob = guarded(|| {
+                        if kind == "score" {
+                            let (x, y) = (Score(a), Score(b));
+                            (x.partial_cmp(&y), x < y, x <= y, x > y, x >= y, x == y)
+                        } else {
+                            let (x, y) = (Error(a), Error(b));
+                            (x.partial_cmp(&y), x < y, x <= y, x > y, x >= y, x == y)
+                        }
+                    });
+                    let exp = (want, want == Some(Ordering::Less), matches!(want, Some(Ordering::Less | Ordering::Equal)),
+                               want == Some(Ordering::Greater), matches!(want, Some(Ordering::Greater | Ordering::Equal)), want == Some(Ordering::Equal));
+                    if ob.as_ref().ok() != Some(&exp) {
+                        bad += 1;
+                        out.line(&json!({"kind": "mismatch", "case": {"case": {"t": "float_results", "kind": kind, "a": format!("{a}"), "b": format!("{b}")},
+                                         "exp": {"partial_cmp_lt_le_gt_ge_eq": format!("{exp:?}")}},
+                                         "on": "float result compared", "observed": {"partial_cmp_lt_le_gt_ge_eq": format!("{ob:?}")}}));
+                    }
+                }
+            }
+        }
+    }
     out.line(&json!({"kind": "summary", "cases": n, "mismatches": bad}));
     out.finish();
     0
